@@ -25,6 +25,8 @@ use super::KeeperError::*;
 use super::KeeperResult;
 use crate::TracePos;
 
+use num_traits::CheckedAdd;
+
 type SeenElements = u32;
 
 /// This slider is intended to slide on a subtrace inside provided trace. This subtrace
@@ -72,8 +74,14 @@ impl TraceSlider {
     }
 
     pub(crate) fn set_position_and_len(&mut self, position: TracePos, subtrace_len: TraceLen) -> KeeperResult<()> {
+        // position and subtrace_len come from untrusted data, their sum could overflow
+        let subtrace_fits = match position.checked_add(&TracePos::from(subtrace_len)) {
+            Some(subtrace_end) => subtrace_end <= self.trace.trace_states_count().into(),
+            None => false,
+        };
+
         // it's possible to set empty subtrace_len and inconsistent position
-        if subtrace_len != 0 && position + subtrace_len > self.trace.trace_states_count().into() {
+        if subtrace_len != 0 && !subtrace_fits {
             return Err(SetSubtraceLenAndPosFailed {
                 requested_pos: position,
                 requested_subtrace_len: subtrace_len,
@@ -89,7 +97,8 @@ impl TraceSlider {
     }
 
     pub(crate) fn set_subtrace_len(&mut self, subtrace_len: TraceLen) -> KeeperResult<()> {
-        let trace_remainder: TraceLen = (TracePos::from(self.trace_len()) - self.position).into();
+        // the position could be set beyond the trace end (see set_position_and_len)
+        let trace_remainder: TraceLen = self.trace_len().saturating_sub(self.position.into());
         if trace_remainder < subtrace_len {
             return Err(SetSubtraceLenFailed {
                 requested_subtrace_len: subtrace_len,
